@@ -94,10 +94,28 @@ type SpecFunc struct {
 }
 
 type ContractFile struct {
-	Pkg   string // package path
-	Funcs map[string]*FuncContract
-	Specs map[string]*SpecFunc
-	Order []string
+	Pkg    string // package path
+	Funcs  map[string]*FuncContract
+	Specs  map[string]*SpecFunc
+	Order  []string
+	Guards []*GuardClause
+}
+
+// E2 ownership clauses (lockset.go):
+//
+//	guarded <Type>.<f1>,<f2>.. by <lockfield> [props=..]   fields of a struct type touched only while the object's own lock is held
+//	held <func> <param> [props=..]                        the function requires the lock of <param> held at entry (checked at call sites)
+//	goroutines <func> [props=..]                          closures started as goroutines by <func> touch captured variables only under a lock
+type GuardClause struct {
+	Kind   string
+	Type   string // guarded: type name, possibly pkg-qualified (eth.Block)
+	Fields []string
+	Lock   string
+	Func   string
+	Param  string
+	Props  []string
+	File   string
+	Line   int
 }
 
 func parseContractFile(path, pkgPath string) (*ContractFile, error) {
@@ -213,6 +231,35 @@ func parseContractFile(path, pkgPath string) (*ContractFile, error) {
 				lastSp = sp
 				curLem = nil
 			}
+		case "guarded", "held", "goroutines":
+			if err := flush(); err != nil {
+				return nil, err
+			}
+			lastCl, cur, curLem = nil, nil, nil
+			g := &GuardClause{Kind: word, File: path, Line: ln + 1}
+			var fs []string
+			for _, f := range strings.Fields(rest) {
+				if v, ok := strings.CutPrefix(f, "props="); ok {
+					g.Props = strings.Split(v, ",")
+				} else {
+					fs = append(fs, f)
+				}
+			}
+			switch {
+			case word == "guarded" && len(fs) == 3 && fs[1] == "by":
+				i := strings.LastIndex(fs[0], ".")
+				if i < 0 {
+					return nil, fmt.Errorf("%s:%d: expected 'guarded Type.f1,f2 by lockfield'", path, ln+1)
+				}
+				g.Type, g.Fields, g.Lock = fs[0][:i], strings.Split(fs[0][i+1:], ","), fs[2]
+			case word == "held" && len(fs) == 2:
+				g.Func, g.Param = fs[0], fs[1]
+			case word == "goroutines" && len(fs) == 1:
+				g.Func = fs[0]
+			default:
+				return nil, fmt.Errorf("%s:%d: malformed %s clause", path, ln+1, word)
+			}
+			cf.Guards = append(cf.Guards, g)
 		case "dyncall":
 			// dyncall <param> ensures <expr> | dyncall <param> pure : assumed contract of a function-valued parameter
 			callee, r2 := splitWord(rest)
